@@ -93,3 +93,14 @@ def run_case(case):
     if res.aborted:
         res.classes.append("aborted")
     return res
+
+
+def enumerate_cases(tier, shard, nshards):
+    return gen_store.enumerate_histories(shard, nshards)
+
+
+def enum_definition(tier):
+    return gen_store.enum_definition()
+
+
+is_enumerated = gen_store.is_enumerated
